@@ -738,7 +738,10 @@ func (w *world) push(db, br string, force bool, f faultSpec, withModel bool) str
 		mrefs, mchunks = parseDest(w.ask("dest"))
 	}
 
-	sticky := w.k.Remote == "http" && f.kind != "" && !f.after && w.e.Thorough() && w.r.Chance(1, 3)
+	// (only the root-moving Commit: over HTTP the ref update itself uploads a table file of novel
+	// chunks and adds it inside the Commit RPC — "WAC" — so a persistent W/A failure can also strike
+	// in the ref-update phase, which the model's W/A steps do not describe)
+	sticky := w.k.Remote == "http" && f.kind == "C" && !f.after && w.e.Thorough() && w.r.Chance(1, 2)
 	if sticky {
 		replfault.Plan.SetSticky(f.kind, f.at)
 	} else {
@@ -803,7 +806,10 @@ func (w *world) push(db, br string, force bool, f faultSpec, withModel bool) str
 			}
 		}
 	}
-	if cls == "rejected" && moved {
+	// (with a lost acknowledgement the update DID happen; a retrying client then finds the branch
+	// already moved and reports a rejection — the ref may only have moved to the pushed commit,
+	// which the invented-ref clause above enforces)
+	if cls == "rejected" && moved && !(f.after && fired) {
 		w.violate("rejected-push-moved-ref", fmt.Sprintf("%s was rejected but remote %s moved %s -> %s", desc, br, before[br], after[br]))
 	}
 	// ---- model comparison
